@@ -6,5 +6,14 @@ TEXT = {
  "C02": dict(
    text="Theorems over the Lean model of Keeper.mint / AmountToMint (C4E/Props/C02.lean): remainder-carry identity; path independence, non-negativity and linear exactness as far as proved (see evidence.theorems). The model is re-validated against the real keeper on every run (per-block amount, minter state, history) and metamorphic monitors (single-jump vs. many blocks, linear exactness, non-negative blocks) run on the real code.",
    note=NOTE, technique="Lean 4 theorems over an executable model + differential correspondence check against the Go keeper"),
+ "C03": dict(
+   text="Theorem books_after_block (C4E/Props/C03.lean, from C4E/Distr1.lean): for the single-denomination core of the repaired BeginBlocker, every configuration meeting the distilled validation facts, every inflow and every pattern of failing bank calls leaves all recorded remains non-negative and summing exactly to the main balance. The faithful multi-denomination model (C4E/Distributor.lean) is re-validated against the real keeper on every run (states, main balance, invariant verdicts), and the two registered invariants plus an independent recomputation of the books are evaluated on the real state after every block. The multi-denomination lift is by correspondence, not proved (books_step_full stays visible).",
+   note=NOTE, technique="Lean 4 invariant proof (all configs / inflows / fault patterns, per denomination) + differential correspondence + invariant monitors on the Go keeper"),
+ "C04": dict(
+   text="Theorems (C4E/Props/C04.lean): the whole inflow of a sub-distributor execution is allocated (states + MAIN) with nothing negative; each share is the 18-digit truncation of share x inflow (never above, less than 1e-18 below). Exact per-destination amounts of the faithful model are compared with the real keeper on every run (states, balances, burned coins: any difference is a failing input), and source-order independence is checked metamorphically on the real code.",
+   note=NOTE, technique="Lean 4 theorems on share allocation + exact differential comparison against the Go keeper + metamorphic source-order monitor"),
+ "C14": dict(
+   text="Theorem books_under_faults (C4E/Props/C14.lean): the C03 identity holds after every block for every pattern of failing sweeps, payouts and burns; a failed payout stores the state unchanged; a failed sweep leaves the source untouched. On the real keeper a fault-injecting bank wrapper fails chosen calls; invariants are evaluated after every block and final balances are compared with a fault-free twin run (<= 1 base unit). Known finding D25 (source shared by two sub-distributors) is reported as KNOWN-FINDING.",
+   note=NOTE, technique="Lean 4 invariant proof over arbitrary fault oracles + fault-injection differential runs and fault-free twin comparison on the Go keeper"),
 }
 NA_REASON = {}
